@@ -60,6 +60,26 @@ def native_check(cfg, env=None, seed=0, scale=1.0):
         if not C.close(st.psi(vv).numpy(), psi) or not C.close(st.probability(vv).numpy(), prob) or not C.close(st.amplitude(vv).numpy(), amp) \
                 or not C.close(st.phase(vv).numpy(), ph) or not C.close(st.psi(vv[-1]).numpy(), psi[:, -1]):
             fails.append(("psi / probability / amplitude / phase of basis states given as a %s tensor differ from the double-precision call" % tname, None))
+    # history: the same object after its parameters were rearranged in place (entries exchanged inside a tensor, so that
+    # sums, norms and shapes of every tensor stay what they were): every quantity follows the current parameters
+    with torch.no_grad():
+        for net in st.networks:
+            for _n, p in getattr(st, net).named_parameters():
+                if p.numel() > 1:
+                    p.copy_(p.flatten().roll(1).reshape(p.shape))
+    am2 = C.np_params(st.rbm_am)
+    marg2 = np.array([C.marginal_np(am2, v) for v in C.bits(nv)])
+    if not C.close(float(st.normalization(space)), marg2.sum()) or not C.close(st.probability(space).numpy(), marg2) \
+            or not C.close(np.exp(-st.rbm_am.effective_energy(space).numpy()), marg2):
+        fails.append(("history: after the parameters were rearranged in place, normalization / probability / effective energy are not those of the current parameters",
+                      float(st.normalization(space)) - marg2.sum()))
+    if cfg["kind"] == "complex":
+        pm2 = C.np_params(st.rbm_ph)
+        if not C.close(st.phase(space).numpy(), 0.5 * np.log(np.array([C.marginal_np(pm2, v) for v in C.bits(nv)]))):
+            fails.append(("history: after the parameters were rearranged in place, the phase is not that of the current parameters", None))
+    with torch.no_grad():
+        for (net, n), p in before.items():
+            getattr(getattr(st, net), n).copy_(p)
     # parameters installed the way a user would (`rbm.weights = nn.Parameter(W)`, requires_grad=True by default) and
     # evaluated with autograd on: the same values
     import torch.nn as nn
